@@ -51,6 +51,13 @@ def assignment_determinism(ctx, rep, rule: str, classes: list[str]) -> None:
                 bad.append("set display (iteration order is not part of the assignment's inputs)")
         if var:
             bad.append(f"locals derived from rank-variant values: {sorted(var)}")
+        # the only state it may read is the group size: no memo table, no other attribute of the instance or the class
+        size_attrs = {"_group_size", "_dist_group_size"}
+        for n in A.walk_no_nested(fi.node):
+            if isinstance(n, ast.Attribute) and isinstance(n.value, ast.Name) and n.value.id in ("self", "cls", ci.name) and n.attr not in size_attrs and not n.attr.startswith("__"):
+                callee = repo.lookup_method(ci, n.attr)
+                if callee is None:
+                    bad.append(f"reads / updates `{ast.unparse(n)}` (the assignment must be a function of its arguments and the group size: a memo or any other carried state makes it depend on what was computed before)")
         rep.ob(rule, f"determinism:{ci.name}:pure-in-sizes-and-group-size", not bad, fi.loc(), "the assignment may depend on block sizes and group size only" + (": " + "; ".join(bad) if bad else ""), sample=True)
         # (b) inputs are the GLOBAL block sizes
         t = sp.formal.get((fi.qual, "buffer_sizes"))
@@ -146,6 +153,31 @@ def ownership(ctx, rep, rule: str, classes: list[str]) -> None:
                 assigned = [n for n in A.walk_no_nested(init.node) if isinstance(n, ast.Assign) and isinstance(n.targets[0], ast.Name) and isinstance(src, ast.Name) and n.targets[0].id == src.id and isinstance(n.value, ast.Call) and isinstance(n.value.func, ast.Attribute) and n.value.func.attr == "_distribute_buffer_sizes"]
                 ok = isinstance(tgt, ast.Tuple) and len(tgt.elts) == 2 and isinstance(gen.elt, ast.Name) and isinstance(tgt.elts[1], ast.Name) and gen.elt.id == tgt.elts[1].id and len(assigned) == 1
         rep.ob(rule, f"ownership:{ci.name}:owners-from-assignment", ok, init.loc(gl[0]) if gl else init.loc(), "group_source_ranks must be the second component of _distribute_buffer_sizes' result", sample=True)
+        # every parameter takes ITS blocks' owners: the owner list is cut by the running block index ranges (start, end) of the
+        # per-parameter block counts — by islice(owners, start, end) or owners[start:end]
+        gbl = repo.meth(ci, "_construct_global_block_info_list")
+        owners_param = [p_ for p_ in gbl.params if p_ not in ("self", "cls")][0]
+        cuts = []
+        for n in ast.walk(gbl.node):
+            if isinstance(n, ast.Call) and isinstance(n.func, ast.Name) and n.func.id == "islice" and n.args and _norm(n.args[0]) == owners_param:
+                cuts.append(("islice", n.args[1:]))
+            elif isinstance(n, ast.Subscript) and _norm(n.value) == owners_param and isinstance(n.slice, ast.Slice):
+                cuts.append(("slice", [n.slice.lower, n.slice.upper]))
+        ok_cut = False
+        detail_cut = f"{len(cuts)} cut(s) of `{owners_param}`"
+        if len(cuts) == 1 and len(cuts[0][1]) == 2 and all(isinstance(x, ast.Name) for x in cuts[0][1]):
+            lo, hi = cuts[0][1][0].id, cuts[0][1][1].id
+            # (lo, hi) must be a loop target fed by generate_pairwise_indices(<blocks per parameter>)
+            fed = False
+            for g in [g for n in ast.walk(gbl.node) if isinstance(n, (ast.GeneratorExp, ast.ListComp)) for g in n.generators] + [n for n in ast.walk(gbl.node) if isinstance(n, ast.For)]:
+                it, tgt = g.iter, g.target
+                if isinstance(it, ast.Call) and isinstance(it.func, ast.Name) and it.func.id == "zip" and isinstance(tgt, ast.Tuple):
+                    for t_, a_ in zip(tgt.elts, it.args):
+                        if isinstance(t_, ast.Tuple) and [getattr(x, "id", None) for x in t_.elts] == [lo, hi] and isinstance(a_, ast.Call) and A.callee_name(repo, gbl.module, a_).endswith("generate_pairwise_indices") and "num_blocks_per_param" in _norm(a_.args[0]):
+                            fed = True
+            ok_cut = fed
+            detail_cut = f"owners cut as [{lo}:{hi}] with ({lo}, {hi}) from generate_pairwise_indices(blocks per parameter): {fed}"
+        rep.ob(rule, f"ownership:{ci.name}:owners-cut-by-block-index-range", ok_cut, gbl.loc(), detail_cut + " — a cut that restarts at 0 for every parameter (a count instead of a range) gives later parameters the first blocks' owners, which then disagree with the buffer layout", sample=True)
         # one assignment decides both who owns a block and where its buffer lies
         acalls = [c for c in A.calls(init.node, nested=True) if isinstance(c.func, ast.Attribute) and c.func.attr == "_distribute_buffer_sizes"]
         cdb = [c for c in A.calls(init.node) if isinstance(c.func, ast.Attribute) and c.func.attr == "_construct_distributed_buffers"]
